@@ -26,7 +26,7 @@ ASSUMPTIONS = [
     "diagrams are finite with birth <= death (non-finite deaths are filtered before the anchored code: C01/C02 `inf_dropped`)",
     "bottleneck: on lattice/half/dyadic inputs numpy's |a-b|, maximum and 0.5*(d-b) are exact, so third entries are compared "
     "with == at Rat there and within 1e-9*scale elsewhere; the aggregate max(rows) == distance is exact on every input",
-    "wasserstein: third entries within 1e-6*scale of sqrt(dx^2+dy^2) resp. (d-b)/sqrt2 (sklearn's expanded Euclidean formula, "
+    "wasserstein: third entries within 1e-9*scale of sqrt(dx^2+dy^2) resp. (d-b)/sqrt2 (sklearn's expanded Euclidean formula, "
     "rotation by cos/sin(pi/4)); |sum(rows) - distance| <= 1e-9*scale*(rows+1)",
     "that the reported distance is the specification value (minimum over all partial matchings) is C01/C02; here it is "
     "re-confirmed exhaustively for M+N <= 8 only",
@@ -313,7 +313,7 @@ class Case:
             self.lines.append("rows.%s %s %s %s" % (self.fn, enc(self.A), enc(self.B), enc(res["sigma"]))); self.kinds.append("model")
 
     def tolerances(self):
-        ctol = (1e-9 if self.fn == "bn" else 1e-6) * self.scale
+        ctol = 1e-9 * self.scale
         atol = 1e-9 * self.scale * ((len(self.wire) if self.wire else 0) + 1)
         return ctol, atol
 
@@ -368,7 +368,7 @@ class Case:
                 if fn == "bn" and self.exact:
                     ok = Fraction(dist) == opt
                 else:
-                    ok = abs(float(opt) - dist) <= (ctol if fn == "bn" else 1e-6 * self.scale * (len(self.wire) + 1))
+                    ok = abs(float(opt) - dist) <= (ctol if fn == "bn" else 1e-9 * self.scale * (len(self.wire) + 1))
                 ctx.test(tag + ".exhaustive_optimum", ok)
                 if not ok:
                     self.problems.append("reported distance %r but the minimum over all partial matchings is %r" % (dist, float(opt)))
@@ -389,7 +389,7 @@ class Case:
         fn = self.fn
         if fn == "ws":
             mrows, tot = ans
-            if not abs(tot - self.res["dist"]) <= max(atol, 1e-6 * self.scale * (len(mrows) + 1)):
+            if not abs(tot - self.res["dist"]) <= max(atol, 1e-9 * self.scale * (len(mrows) + 1)):
                 return "model total %r vs code distance %r" % (tot, self.res["dist"])
         else:
             mrows = ans
@@ -597,7 +597,7 @@ MANIFEST = {
     "note": "Trusted: Lean kernel + Mathlib (propext/Classical.choice/Quot.sound); the harness and driver that hand the code's rows to the "
             "checker; C01/C02 for 'reported distance = minimum'. [T]: an independent Python re-implementation of the statement's clauses, "
             "the exhaustive optimum (M+N <= 8), hash-seed runs in fresh interpreters, and float tolerances (bottleneck costs exact on dyadic "
-            "inputs, 1e-9*scale otherwise; Wasserstein costs 1e-6*scale). The extraction model is tied to the code by replaying the "
+            "inputs, 1e-9*scale otherwise; Wasserstein costs 1e-9*scale). The extraction model is tied to the code by replaying the "
             "assignment captured from the solver inside the real call.",
     "technique": "Lean-proved certificate checker run on every returned matching + theorems about the extraction loops",
 }
